@@ -32,8 +32,10 @@ from harness.common import (MachineryError, Verdict, import_trimesh, pmap, seed,
 
 PROP = "C11"
 CFG = "INIT Init\nNEXT Next\nINVARIANT Report\nINVARIANT RefSane\nCHECK_DEADLOCK FALSE\n"
-DMAX = 256          # largest denominator a returned coordinate may snap to
-KMAX = 2000         # largest common denominator of one record
+DMAX = 256          # largest denominator a returned coordinate may snap to (single plane: true bound is 24)
+DMAX_PAIR = 4096    # two successive planes multiply the denominators
+KMAX = 1000         # largest common denominator of one record (quadratic terms in TLC's 32-bit integers)
+KCAP = 128          # capped slices (cubic terms in TLC) only where the crossings' denominators stay below this
 TOL = 1e-9
 ENGINE_MODULES = (("earcut", "mapbox_earcut"), ("triangle", "triangle"), ("manifold", "manifold3d"))
 EXTRA_NORMALS = [(1, 2, 0), (1, 1, 2), (2, -1, 1), (0, 1, -2)]
@@ -100,8 +102,20 @@ def seeds():
     return {k: ([list(v) for v in V], [list(f) for f in F]) for k, (V, F) in out.items()}
 
 
-SEEDS = seeds()
-SEED_ORDER = ["tet", "cube", "octa", "lprism", "hole", "two"]
+def with_rotations(base):
+    """Every seed in three presentations: face k listed from its corner (k + r) mod 3, r = 0, 1, 2 (the same
+    oriented surface; the code's index juggling sees the cut corner in every position of the face row)."""
+    out = {}
+    for name, (V, F) in base.items():
+        for r in range(3):
+            out["%s/r%d" % (name, r)] = (V, [[f[(j + k + r) % 3] for j in range(3)] for k, f in enumerate(F)])
+    return out
+
+
+BASE_ORDER = ["tet", "cube", "octa", "lprism", "hole", "two"]
+SEEDS = with_rotations(seeds())
+SEED_ORDER = ["%s/r%d" % (n, r) for n in BASE_ORDER for r in range(3)]
+NONCONVEX = ("lprism", "hole", "two")      # only used to name a deviation; TLC decides convexity itself
 
 
 def normals_all():
@@ -144,23 +158,25 @@ def normal_variant(n, k):
 _fc = {}
 
 
-def frac(x):
-    r = _fc.get(x)
+def frac(x, dmax=DMAX):
+    r = _fc.get((x, dmax))
     if r is None:
         try:
-            fr = Fraction(x).limit_denominator(DMAX)
+            fr = Fraction(x).limit_denominator(dmax)
         except (ValueError, OverflowError):
             raise OffLattice("not_finite")
         if abs(float(fr) - x) > TOL * max(1.0, abs(x)):
             raise OffLattice("residual")
-        r = _fc[x] = (fr.numerator, fr.denominator)
+        if abs(x) > 1000.0:
+            raise OffLattice("out_of_range")
+        r = _fc[(x, dmax)] = (fr.numerator, fr.denominator)
     return r
 
 
-def to_grid(arrays):
+def to_grid(arrays, dmax=DMAX):
     """Snap float arrays to rationals and rescale all of them to integers over one common
     denominator K.  Returns (K, list of nested int lists)."""
-    fr = [[frac(float(x)) for x in np.asarray(a, dtype=np.float64).ravel()] for a in arrays]
+    fr = [[frac(float(x), dmax) for x in np.asarray(a, dtype=np.float64).ravel()] for a in arrays]
     K = 1
     for row in fr:
         for _, d in row:
@@ -221,7 +237,7 @@ EMPTY_OUT = {"v": [], "f": [], "src": []}
 
 def base_record(kind, name, planes, sub, **desc):
     V, F = SEEDS[name]
-    return {"kind": kind, "V": V, "F": F, "solid": True, "K": 1, "off": "", "exc": "",
+    return {"kind": kind, "seed": name, "V": V, "F": F, "solid": True, "K": 1, "off": "", "exc": "",
             "planes": [{"n": list(n), "c2": int(c2)} for n, c2 in planes],
             "sub": list(range(len(F))) if sub is None else [int(s) for s in sub],
             "desc": dict(desc, seed=name)}
@@ -329,15 +345,16 @@ def slice_record(tm, mesh, Vf, Ff, name, n, c2, o, nn, sub, api):
     return guarded(rec, run)
 
 
-def cap_record(tm, mesh, name, n, c2, o, nn, engine, api):
+def cap_record(tm, mesh, Vf, Ff, name, n, c2, o, nn, engine, api):
     rec = base_record("cap", name, [(n, c2)], None, origin=list(o), normal=list(map(float, nn)), api=api, engine=engine)
-    rec.update(pos=EMPTY_OUT, neg=EMPTY_OUT)
+    rec.update(pos=EMPTY_OUT, neg=EMPTY_OUT, note=True)
 
     def run(rec):
         pv, pf = out_mesh(slice_call(tm, mesh, nn, o, api, cap=True, engine=engine))
         nv, nf = out_mesh(slice_call(tm, mesh, -nn, o, api, cap=True, engine=engine))
         K, (a, b) = to_grid([pv, nv])
-        rec.update(K=K, pos={"v": a, "f": pf.tolist(), "src": []}, neg={"v": b, "f": nf.tolist(), "src": []})
+        rec.update(K=K, pos={"v": a, "f": pf.tolist(), "src": face_hints(Vf, Ff, pv, pf)},
+                   neg={"v": b, "f": nf.tolist(), "src": face_hints(Vf, Ff, nv, nf)})
     return guarded(rec, run)
 
 
@@ -355,7 +372,14 @@ def pair_record(tm, mesh, Vf, Ff, name, p1, p2, rs):
 
     def run(rec):
         pv, pf = out_mesh(slice_call(tm, mesh, nn, oo, api))
-        K, (a,) = to_grid([pv])
+        try:
+            K, (a,) = to_grid([pv], DMAX_PAIR)
+        except OffLattice as e:
+            if str(e) in ("denominator", "residual"):
+                # two cuts can need a finer grid than TLC's integers carry: not judged (counted in the evidence)
+                rec["skip"] = True
+                return
+            raise
         rec.update(K=K, pos={"v": a, "f": pf.tolist(), "src": face_hints(Vf, Ff, pv, pf)})
     return guarded(rec, run)
 
@@ -382,7 +406,7 @@ def _chunk(items):
             if want_slice:
                 out.append(slice_record(tm, mesh, Vf, Ff, name, n, c2, o, nn, None, api))
                 for eng in engines:
-                    out.append(cap_record(tm, mesh, name, n, c2, o, nn, eng, api))
+                    out.append(cap_record(tm, mesh, Vf, Ff, name, n, c2, o, nn, eng, api))
             if want_sub:
                 nf = len(Ff)
                 sub = sorted(rs.choice(nf, size=max(1, rs.randint(nf // 3, nf)), replace=False).tolist())
@@ -401,6 +425,18 @@ def _chunk(items):
 
 
 # ------------------------------------------------------------------- enumeration
+def k_theory(name, n):
+    """lcm of the denominators a crossing of a mesh edge with a plane of normal n (lattice or half-lattice
+    offset) can have; an enumeration filter only: capped slices form cubic terms in TLC's 32-bit integers"""
+    V, F = SEEDS[name]
+    K = 1
+    for a, b in {tuple(sorted((f[i], f[(i + 1) % 3]))) for f in F for i in range(3)}:
+        d = abs(2 * sum(n[k] * (V[a][k] - V[b][k]) for k in range(3)))
+        if d:
+            K = K * d // math.gcd(K, d)
+    return K
+
+
 def sign_patterns(name, n, c2):
     V, F = SEEDS[name]
     s = [(lambda d: (d > 0) - (d < 0))(2 * (n[0] * v[0] + n[1] * v[1] + n[2] * v[2]) - c2) for v in V]
@@ -408,42 +444,47 @@ def sign_patterns(name, n, c2):
 
 
 def build_work(tier, engines, rs):
+    """quick: every (mesh, plane) pair once, in one of the three presentations of the seed (rotating), one
+    seeded origin / normal scaling / api per pair; thorough: every presentation, and three repetitions with
+    other origins on the same plane, other normal scalings and the other api."""
     work, wid = [], 0
     patterns = set()
     npairs = 0
-    for name in SEED_ORDER:
-        V, F = SEEDS[name]
+    nocap = {}
+    for bi, base in enumerate(BASE_ORDER):
+        V, F = SEEDS[base + "/r0"]
         planes = []
         for n in normals_all():
             c2s = offsets(V, n)
             for c2 in c2s:
                 planes.append((n, c2))
-            # parallel sections through mesh_multiplane: every normal in thorough, a third in quick
-            if tier == "thorough" or rs.randint(3) == 0:
-                work.append(("multi", name, wid, n, c2s))
+            # parallel sections through mesh_multiplane, one call per normal covering every offset
+            for r in (range(3) if tier == "thorough" else [(len(work) + bi) % 3]):
+                work.append(("multi", "%s/r%d" % (base, r), wid, n, c2s))
                 wid += 1
         for k, (n, c2) in enumerate(planes):
-            patterns |= sign_patterns(name, n, c2)
-            want_slice = positive_rep(n)
-            if tier == "thorough":
-                eng = list(engines)
-            else:
-                # quick: every pair is capped by one engine (rotating), every fourth by all of them
-                eng = list(engines) if k % 4 == 0 else [engines[k % len(engines)]] if engines else []
-            want_sub = (k % (2 if tier == "thorough" else 5)) == 0
-            work.append(("plane", name, wid, n, c2, eng, want_slice, want_sub))
-            wid += 1
+            patterns |= sign_patterns(base + "/r0", n, c2)
             npairs += 1
-        # plane pairs for multi-plane slicing: normals from {-1,0,1}^3, offsets that cut the mesh
+            want_slice = positive_rep(n)
+            eng = list(engines)
+            if want_slice and k_theory(base + "/r0", n) > KCAP:
+                eng = []
+                nocap[base + str(list(n))] = nocap.get(base + str(list(n)), 0) + 1
+            reps = [(r, j) for r in range(3) for j in range(3)] if tier == "thorough" else [((k + bi) % 3, 0)]
+            for r, j in reps:
+                want_sub = ((k + j) % 3) == 0
+                work.append(("plane", "%s/r%d" % (base, r), wid, n, c2, eng, want_slice, want_sub))
+                wid += 1
+        # plane pairs for multi-plane slicing: normals from {-1,0,1}^3
         simple = [(n, c2) for n, c2 in planes if max(abs(x) for x in n) == 1]
-        for _ in range(120 if tier == "thorough" else 25):
+        for q in range(600 if tier == "thorough" else 90):
             p1 = simple[rs.randint(len(simple))]
             p2 = simple[rs.randint(len(simple))]
             if p1[0] == p2[0] or p1[0] == tuple(-x for x in p2[0]):
                 continue
-            work.append(("pair", name, wid, p1, p2))
+            work.append(("pair", "%s/r%d" % (base, q % 3), wid, p1, p2))
             wid += 1
-    return work, patterns, npairs
+    return work, patterns, npairs, nocap
 
 
 def main(argv):
@@ -458,12 +499,14 @@ def main(argv):
         except Exception:  # noqa
             skipped.append(eng)
     rs = np.random.RandomState(seed() + 11)
-    work, patterns, npairs = build_work(tier, engines, rs)
+    work, patterns, npairs, nocap = build_work(tier, engines, rs)
     if len(patterns) != 27:
         raise MachineryError(f"only {len(patterns)} of 27 triangle sign patterns enumerated")
     order = rs.permutation(len(work))          # balance the chunks
     res = pmap(_chunk, [work[j] for j in order], chunk=40)
     cases = [c for r in res for c in r]
+    skipped_pairs = sum(1 for c in cases if c.get("skip"))
+    cases = [c for c in cases if not c.get("skip")]
     for k, c in enumerate(cases):
         c["id"] = k
     descs = [c.pop("desc") for c in cases]
@@ -491,13 +534,26 @@ def main(argv):
     if not (nonempty_sections > 500 and cut_slices > 300 and (nonempty_halves > 300 or not engines)):
         raise MachineryError("enumeration nearly empty: %d sections, %d cut slices, %d halves"
                              % (nonempty_sections, cut_slices, nonempty_halves))
+    notes = {}
     for cid, clause in sorted(rejects.items()):
         c, d = cases[cid], descs[cid]
         if clause.startswith("MODEL_LIMIT"):
             raise MachineryError(f"{clause}: case {d} K={c['K']}")
+        if clause.startswith("NOTE_"):
+            # an observation the property does not rule out (see Section.tla): counted, never a violation
+            e = notes.setdefault(clause, {"count": 0, "example": {"planes": c["planes"], **d}})
+            e["count"] += 1
+            continue
         detail = {"kind": c["kind"], "planes": c["planes"], "K": c["K"], "exc": c["exc"], "off": c["off"],
                   "subset": c["sub"] if len(c["sub"]) < len(c["F"]) else "all", **d}
-        V.violation(f"{c['kind']}:{clause}", detail)
+        dev = None
+        if c["kind"] == "cap" and clause == "capped_volumes_do_not_add_up" and d["seed"].split("/")[0] in NONCONVEX:
+            # the section polygon of a non-convex solid is pinched where the plane passes through a vertex;
+            # edges_to_polygons / repair_invalid then drops or garbles a cap (depends on float noise)
+            pl = c["planes"][0]
+            if any(2 * sum(a * b for a, b in zip(pl["n"], v)) == pl["c2"] for v in c["V"]):
+                dev = "CapOfSectionThroughVertexNonConvex"
+        V.violation(f"{c['kind']}:{clause}", detail, dev)
 
     def sample(k):
         c, d = cases[k], descs[k]
@@ -509,14 +565,17 @@ def main(argv):
             s["negative_faces"] = len(c["neg"]["f"])
         return s
     cov = {"states": states, "transitions": states, "traces_validated_against_impl": len(cases),
-           "mesh_plane_pairs": npairs, "seeds": {k: {"vertices": len(v[0]), "faces": len(v[1])} for k, v in SEEDS.items()},
+           "mesh_plane_pairs": npairs, "work_items": len(work),
+           "seeds": {k: {"vertices": len(SEEDS[k + "/r0"][0]), "faces": len(SEEDS[k + "/r0"][1])} for k in BASE_ORDER},
+           "presentations_per_seed": 3,
            "normals": len(normals_all()), "triangle_sign_patterns": len(patterns),
            "records_per_kind": bykind, "records_per_api": byapi, "capped_records_per_engine": byengine,
-           "engines_used": engines, "engines_skipped_not_importable": skipped,
+           "planes_not_capped_grid_too_fine": nocap, "plane_pairs_not_judged_grid_too_fine": skipped_pairs, "engines_used": engines, "engines_skipped_not_importable": skipped,
            "sections_with_segments": nonempty_sections, "slices_with_faces_on_both_sides_or_pairs": cut_slices,
            "capped_halves_nonempty": nonempty_halves, "capped_halves_empty": empty_halves,
            "common_denominators": {str(k): v for k, v in sorted(ks.items())},
-           "rejected": len(rejects), "tlc_wall_s": round(wall, 1),
+           "rejected": len(rejects) - sum(e["count"] for e in notes.values()),
+           "observations_outside_the_property": notes, "tlc_wall_s": round(wall, 1),
            "samples": [sample(len(cases) // 5), sample(len(cases) // 2), sample(len(cases) - 1)]}
     return V.finish("model_checking", cov, assumptions=[
         "lattice meshes with coordinates in 0..3; integer normals; plane offsets on the lattice and half lattice: "
